@@ -867,6 +867,11 @@ func (db *DB) Close(ctx context.Context) (err error) {
 	db.f = nil
 	db.opened = false
 	db.rtx = nil
+	// The in-memory sync state is only valid while the read lock is held.
+	// Once closed, other connections may checkpoint, restart or truncate the
+	// WAL, so a later Open() of this object must re-verify from the LTX files
+	// like a new process does instead of trusting e.g. syncedToWALEnd.
+	db.syncState = syncState{}
 	db.mu.Unlock()
 
 	if sqlDB != nil {
